@@ -31,6 +31,15 @@ type Letter struct {
 type Mix struct {
 	Level string `json:"level"` // item | resource | scope | sub (events+links / exemplars)
 	Rot   int    `json:"rot"`
+	// N > 0: only the first N values of the rotation (N = 1: a batch that introduces one value type)
+	N int `json:"n,omitempty"`
+}
+
+func (m *Mix) count() int {
+	if m.N > 0 {
+		return m.N
+	}
+	return NumMixValues
 }
 
 const NumMixValues = 18
@@ -115,6 +124,9 @@ func (l Letter) String() string {
 		return fmt.Sprintf("%s:big(%s,n=%d)", l.Sig, l.Big.Kind, l.Big.N)
 	}
 	if l.Mix != nil {
+		if l.Mix.N > 0 {
+			return fmt.Sprintf("%s:typemix(%s,rot=%d,n=%d)", l.Sig, l.Mix.Level, l.Mix.Rot, l.Mix.N)
+		}
 		return fmt.Sprintf("%s:typemix(%s,rot=%d)", l.Sig, l.Mix.Level, l.Mix.Rot)
 	}
 	var parts []string
@@ -488,7 +500,7 @@ func (l Letter) BuildTraces() ptrace.Traces {
 	if l.Mix != nil {
 		rs := td.ResourceSpans().AppendEmpty()
 		ss := rs.ScopeSpans().AppendEmpty()
-		for i := 0; i < NumMixValues; i++ {
+		for i := 0; i < l.Mix.count(); i++ {
 			j := i + l.Mix.Rot
 			switch l.Mix.Level {
 			case "resource":
@@ -792,7 +804,7 @@ func (l Letter) BuildLogs() plog.Logs {
 	if l.Mix != nil {
 		rl := ld.ResourceLogs().AppendEmpty()
 		sl := rl.ScopeLogs().AppendEmpty()
-		for i := 0; i < NumMixValues; i++ {
+		for i := 0; i < l.Mix.count(); i++ {
 			j := i + l.Mix.Rot
 			switch l.Mix.Level {
 			case "resource":
@@ -1342,7 +1354,7 @@ func (l Letter) BuildMetrics() pmetric.Metrics {
 	if l.Mix != nil {
 		rm := md.ResourceMetrics().AppendEmpty()
 		sm := rm.ScopeMetrics().AppendEmpty()
-		for i := 0; i < NumMixValues; i++ {
+		for i := 0; i < l.Mix.count(); i++ {
 			j := i + l.Mix.Rot
 			switch l.Mix.Level {
 			case "resource":
